@@ -3,19 +3,19 @@ from props.common import *
 
 LEVEL = 'proof'
 BOUNDS = 'no bound on values: every input is a free bit-vector of the full machine width (8,16,32,64 bit); no loops in the encoded code'
-OUTSIDE = 'SIMD specialisations (C03); behaviour outside the documented (offset,bits) domain'
+OUTSIDE = 'behaviour outside the documented (offset,bits) domain; SIMD specialisations other than the aligned 4 x 32-bit ones of func_integer_simd.inl at SSE2/AVX2 (quick) and SSE2..AVX2 (thorough) - the rest of the SIMD surface is C03'
 ASSUMPTIONS = ['bitfieldExtract/Insert: 0<=offset, 0<=bits, offset+bits<=width (GLSL: otherwise undefined)']
 
 U = Unit('c05', includes=['glm/glm.hpp', 'glm/integer.hpp'])
 TYS = ['i8', 'u8', 'i16', 'u16', 'i32', 'u32', 'i64', 'u64']
-WIDE = ['i32', 'u32', 'i64', 'u64']
+WIDE = TYS      # (8/16-bit bitfieldReverse/bitfieldInsert did not instantiate before the fix recorded in known_findings.json)
 for t in TYS:
     c = ITYPES[t]
     U.add('bitCount_' + t, [(c, 1)], [('int', 1)], 'o[0] = glm::bitCount(a[0]);')
     U.add('findLSB_' + t, [(c, 1)], [('int', 1)], 'o[0] = glm::findLSB(a[0]);')
     U.add('findMSB_' + t, [(c, 1)], [('int', 1)], 'o[0] = glm::findMSB(a[0]);')
     U.add('bitfieldExtract_' + t, [(c, 1), ('int', 2)], [(c, 1)], 'o[0] = glm::bitfieldExtract(a[0], b[0], b[1]);')
-    if t in WIDE:   # glm's bitfieldReverse/bitfieldInsert do not instantiate for 8/16-bit element types (integer promotion of ~Mask)
+    if t in WIDE:
         U.add('bitfieldReverse_' + t, [(c, 1)], [(c, 1)], 'o[0] = glm::bitfieldReverse(a[0]);')
         U.add('bitfieldInsert_' + t, [(c, 2), ('int', 2)], [(c, 1)], 'o[0] = glm::bitfieldInsert(a[0], a[1], b[0], b[1]);')
     for L in (1, 2, 3, 4):
@@ -36,7 +36,22 @@ for L in (1, 2, 3, 4):
     U.add('umulExtended_v%d' % L, [('uint32_t', L), ('uint32_t', L)], [('uint32_t', L), ('uint32_t', L)], 'glm::vec<%d,glm::uint> m, l; glm::umulExtended(ldv<%d,glm::uint>(a), ldv<%d,glm::uint>(b), m, l); stv(o, m); stv(o2, l);' % (L, L, L))
     U.add('imulExtended_v%d' % L, [('int32_t', L), ('int32_t', L)], [('int32_t', L), ('int32_t', L)], 'glm::vec<%d,int> m, l; glm::imulExtended(ldv<%d,int>(a), ldv<%d,int>(b), m, l); stv(o, m); stv(o2, l);' % (L, L, L))
 
-def units(tier): return [U]
+# SIMD specialisations of func_integer_simd.inl: aligned 4 x 32-bit vectors under GLM_FORCE_INTRINSICS
+SIMD_ISAS = {'sse2': ['-msse2'], 'sse41': ['-msse4.1'], 'avx': ['-mavx'], 'avx2': ['-mavx2']}
+US = {}
+for isa, fl in SIMD_ISAS.items():
+    u = Unit('c05_' + isa, includes=['glm/glm.hpp', 'glm/integer.hpp'], defines=['GLM_FORCE_INTRINSICS'], cflags=fl)
+    for t in ('i32', 'u32'):
+        c = ITYPES[t]; ld = 'ldv<4,%s,glm::aligned_highp>(a)' % c
+        u.add('bitCount_a4_' + t, [(c, 4)], [('int', 4)], 'stv(o, glm::bitCount(%s));' % ld)
+        u.add('findLSB_a4_' + t, [(c, 4)], [('int', 4)], 'stv(o, glm::findLSB(%s));' % ld)
+        u.add('findMSB_a4_' + t, [(c, 4)], [('int', 4)], 'stv(o, glm::findMSB(%s));' % ld)
+        u.add('bitfieldReverse_a4_' + t, [(c, 4)], [(c, 4)], 'stv(o, glm::bitfieldReverse(%s));' % ld)
+        u.add('bitfieldExtract_a4_' + t, [(c, 4), ('int', 2)], [(c, 4)], 'stv(o, glm::bitfieldExtract(%s, b[0], b[1]));' % ld)
+        u.add('bitfieldInsert_a4_' + t, [(c, 4), (c, 4), ('int', 2)], [(c, 4)], 'stv(o, glm::bitfieldInsert(%s, ldv<4,%s,glm::aligned_highp>(b), c[0], c[1]));' % (ld, c))
+    US[isa] = u
+def simd_isas(tier): return ['sse2', 'avx2'] if tier == 'quick' else list(SIMD_ISAS)
+def units(tier): return [U] + [US[i] for i in simd_isas(tier)]
 
 # ---- specifications (GLSL 4.20 section 8.8 as quoted in glm/integer.hpp), bit level
 def spec_findMSB(x, signed):
@@ -62,24 +77,26 @@ def pre_field(W):
     def pre(off, bits): return [off >= 0, bits >= 0, off + bits <= W, off <= W, bits <= W]
     return pre
 
-def job_simple(fam, t, L):
+def job_simple(fam, t, L, unit=None, nm=None):
     """bitCount/findLSB/findMSB/bitfieldReverse for type t; L=0 scalar"""
-    def run(S):
+    def run(S, U=U):
+        if unit is not None: U = unit
         sg = is_signed(t)
         f = {'bitCount': lambda x: popcount(x), 'findLSB': lambda x: lowest_set(x), 'findMSB': lambda x: spec_findMSB(x, sg), 'bitfieldReverse': bitrev}[fam]
         wrong = {'bitCount': lambda x: popcount(x) + z3.ZeroExt(31, bit(x, 0)), 'findLSB': lambda x: highest_set(x), 'findMSB': lambda x: lowest_set(x), 'bitfieldReverse': lambda x: x}[fam]
         n = max(L, 1)
-        name = '%s_%s' % (fam, t) if L == 0 else '%s_v%d_%s' % (fam, L, t)
+        name = nm or ('%s_%s' % (fam, t) if L == 0 else '%s_v%d_%s' % (fam, L, t))
         spec = lambda ins, outs: [('c%d' % i, outs[0][i] == f(ins[0][i])) for i in range(n)]
         mut = lambda ins, outs: [('c%d' % i, outs[0][i] == wrong(ins[0][i])) for i in range(n)]
         known = []
         S.check_fn(U, name, spec, known=known, mutant=mut, timeout=S.cap(120, 300), bounds='all 2^%d values per component' % width(t))
     return run
 
-def job_extract(t, L):
-    def run(S):
+def job_extract(t, L, unit=None, nm=None):
+    def run(S, U=U):
+        if unit is not None: U = unit
         W = width(t); sg = is_signed(t); n = max(L, 1)
-        name = 'bitfieldExtract_%s' % t if L == 0 else 'bitfieldExtract_v%d_%s' % (L, t)
+        name = nm or ('bitfieldExtract_%s' % t if L == 0 else 'bitfieldExtract_v%d_%s' % (L, t))
         pre = lambda ins: pre_field(W)(ins[1][0], ins[1][1])
         spec = lambda ins, outs: [('c%d' % i, outs[0][i] == spec_extract(ins[0][i], ins[1][0], ins[1][1], sg)) for i in range(n)]
         mut = lambda ins, outs: [('c%d' % i, outs[0][i] == spec_extract(ins[0][i], ins[1][0] + 1, ins[1][1], sg)) for i in range(n)]
@@ -88,8 +105,9 @@ def job_extract(t, L):
 
         S.check_fn(U, name, spec, pre, known=known, mutant=mut, timeout=S.cap(120, 300), bounds='all values, all (offset,bits) with 0<=offset, 0<=bits, offset+bits<=%d' % W, side=False)
     return run
-def job_insert(t, L):
-    def run(S):
+def job_insert(t, L, unit=None, nm=None):
+    def run(S, U=U):
+        if unit is not None: U = unit
         W = width(t); n = max(L, 1)
         if L == 0:
             name = 'bitfieldInsert_%s' % t
@@ -97,7 +115,7 @@ def job_insert(t, L):
             spec = lambda ins, outs: [('c0', outs[0][0] == spec_insert(ins[0][0], ins[0][1], ins[1][0], ins[1][1]))]
             mut = lambda ins, outs: [('c0', outs[0][0] == spec_insert(ins[0][1], ins[0][0], ins[1][0], ins[1][1]))]
         else:
-            name = 'bitfieldInsert_v%d_%s' % (L, t)
+            name = nm or 'bitfieldInsert_v%d_%s' % (L, t)
             pre = lambda ins: pre_field(W)(ins[2][0], ins[2][1])
             spec = lambda ins, outs: [('c%d' % i, outs[0][i] == spec_insert(ins[0][i], ins[1][i], ins[2][0], ins[2][1])) for i in range(n)]
             mut = lambda ins, outs: [('c%d' % i, outs[0][i] == spec_insert(ins[1][i], ins[0][i], ins[2][0], ins[2][1])) for i in range(n)]
@@ -152,4 +170,10 @@ def jobs(tier):
     for fam in ('uaddCarry', 'usubBorrow', 'umulExtended', 'imulExtended'):
         J.append((fam, job_carry(fam, 0)))
         for L in ((2,) if q else (1, 2, 3, 4)): J.append(('%s_v%d' % (fam, L), job_carry(fam, L)))
+    for isa in simd_isas(tier):
+        for t in ('i32', 'u32'):
+            for fam in ('bitCount', 'findLSB', 'findMSB', 'bitfieldReverse'):
+                J.append(('%s_%s_a4_%s' % (isa, fam, t), job_simple(fam, t, 4, US[isa], '%s_a4_%s' % (fam, t))))
+            J.append(('%s_bitfieldExtract_a4_%s' % (isa, t), job_extract(t, 4, US[isa], 'bitfieldExtract_a4_' + t)))
+            J.append(('%s_bitfieldInsert_a4_%s' % (isa, t), job_insert(t, 4, US[isa], 'bitfieldInsert_a4_' + t)))
     return J
